@@ -488,11 +488,20 @@ def gen_malformed_op(rng, ctx, names, league, calls=faults.CALLS):
 
 def calls_params(rng, prop):
     p = _calls_params(rng, prop)
+    big = rng.random()
+    wide = rng.random() < 0.5
     if p["length"] >= 2000:
         # a very long life of one model (thousands of calls): mostly plain sequential calls,
         # every reference in a pristine import (a call counter hidden anywhere flips both the
-        # call and an in-process reference alike)
-        p.update(pristine_refs=True, threaded=False, p_fault=0.0, p_other_model=0.0, shape=[3, 2])
+        # call and an in-process reference alike); half of these lives consist of 12-team
+        # free-for-alls (hundreds of thousands of distinct pairings on one model object)
+        p.update(pristine_refs=True, threaded=False, p_fault=0.0, p_other_model=0.0, shape=[12, 1, 12] if wide else [3, 2])
+        if wide:
+            p.update(players=40)
+    elif big < 0.05:
+        # a battle-royale service: lobbies of up to 100 teams (the sizes come and go, so a big
+        # lobby is followed by smaller big lobbies), ties are common
+        p.update(players=110, shape=[100, 1] if wide else [48, 2], length=rng.choice([12, 20, 40]), threaded=False, rule="tie" if wide else p["rule"], p_extreme=0.0, fixed_rosters=False)
     return p
 
 
@@ -811,6 +820,11 @@ class CallsDriver:
     # ---- execution
     def run(self):
         ctx = self.ctx
+        if ctx.prop == "C14" and not ctx.params.get("threaded"):
+            # the same battery at the very beginning of the model's life (not in threaded runs,
+            # whose first phase must meet the library cold): what it leaves in any cache is
+            # exactly what the battery at the end comes back to, after the whole history
+            self.probe_battery()
         while True:
             op = ctx.next_op(self.gen)
             if op is None:
@@ -861,6 +875,16 @@ class CallsDriver:
                 st, val = call_outcome(lambda: do_predict(league.model, kind, teams))
                 out = ("ok", enc(val)) if st == "ok" else ("exc", type(val).__name__)
                 compare("predict_%s:%d_players" % (kind, total), out, ref_predict(ctx.cfg, snap, kind, "probe", stats=ctx.stats, lib=lib), snap)
+        # three accounts that have never played, in their first game (the one game every
+        # service sees over and over again with exactly the same numbers)
+        snap = [[[enc(float(mu0)), enc(float(sg0))]] for _ in range(3)]
+        for label, rk in (("newcomers_ranked", {"ranks": [1, 2, 3]}), ("newcomers_drawn", {"ranks": [1, 1, 1]})):
+            teams = [[league.factory.rating()] for _ in range(3)]
+            if [[enc(float(p.mu)), enc(float(p.sigma))] for t in teams for p in t] != [x for t in snap for x in t]:
+                break
+            st, val = call_outcome(lambda: league.model.rate(teams, **{k: list(v) for k, v in rk.items()}))
+            out = ("ok", enc(result_values(val))) if st == "ok" else ("exc", type(val).__name__)
+            compare("rate:" + label, out, ref_rate(ctx.cfg, snap, {k: list(v) for k, v in rk.items()}, "probe", stats=ctx.stats, lib=lib), snap)
         snap = values([1, 2, 1], 7)
         for label, rk in (("ranks_int_tie", {"ranks": [1, 1, 2]}), ("ranks_float_tie", {"ranks": [1.0, 1.0, 2.0]}), ("scores_int_tie", {"scores": [5, 9, 9]}), ("scores_float_tie", {"scores": [5.0, 9.0, 9.0]}), ("plain", {})):
             teams = [[mk_rating(league.factory, dec(mu), dec(sg), "r%d_%d" % (i, j), ctx.stats) for j, (mu, sg) in enumerate(t)] for i, t in enumerate(snap)]
@@ -1281,6 +1305,16 @@ def c06_params(rng):
 
 
 def c06_params_all(rng):
+    p = _c06_params_all(rng)
+    big = rng.random()
+    wide = rng.random() < 0.5
+    if big < 0.05 and not p.get("threaded_service"):
+        # battle-royale lobbies: up to 100 teams per game, many shared places
+        p.update(players=110, shape=[100, 1] if wide else [40, 3], length=rng.choice([20, 40]), rule=rng.choice(["tie", "tie", "uniform", "upset"]))
+    return p
+
+
+def _c06_params_all(rng):
     """C06 runs: the closed-loop league of SigmaDriver, and - in a small share of runs - the
     rating SERVICE of the C14/C15 checks (one shared model, worker threads on disjoint players,
     calls carrying other options in flight at the same time, killed and rejected calls in
@@ -1706,12 +1740,21 @@ class RejectDriver:
         league = self.league
         n = len(names)
         kinds = [("complex", 2j), ("decimal", decimal.Decimal("2.5")), ("fraction", fractions.Fraction(5, 2)),
-                 ("nan", float("nan")), ("inf", float("inf")), ("neg_inf", float("-inf")), ("decimal_nan", decimal.Decimal("NaN"))]
-        for label, bad in kinds:
+                 ("nan", float("nan")), ("inf", float("inf")), ("neg_inf", float("-inf")), ("decimal_nan", decimal.Decimal("NaN")),
+                 # ... and objects that COMPARE AND HASH EQUAL to the int they stand in for,
+                 # submitted right after the all-int vector was accepted (anything that remembers
+                 # validated vectors by value cannot tell them apart)
+                 ("decimal_equal_to_int", decimal.Decimal), ("fraction_equal_to_int", fractions.Fraction), ("complex_equal_to_int", complex)]
+        for label, bad0 in kinds:
             for sel in ("ranks", "scores"):
                 for pos in sorted({0, n - 1, n // 2}):
                     teams = [[mk_rating(league.model, p.mu, p.sigma, p.name) for p in t] for t in league.teams_of(names)]
                     vals = [k + 1 for k in range(n)]
+                    bad = bad0
+                    if isinstance(bad0, type):
+                        twin = [[mk_rating(league.model, p.mu, p.sigma, p.name) for p in t] for t in league.teams_of(names)]
+                        call_outcome(lambda: league.model.rate(twin, **{sel: list(vals)}))
+                        bad = bad0(vals[pos])
                     vals[pos] = bad
                     objs = reachable_ratings(teams)
                     pre_r = rating_digest(objs)
